@@ -365,7 +365,7 @@ def gen_pole_large(rng):
 
 CLASSIC = (None, None, None)
 GENS = [("generic", 5), ("bulge", 2), ("meridian", 3), ("pole-corner", 2), ("pole-enclosed", 3), ("near-pole", 2),
-        ("equator-corner", 2), ("pole-large", 2)]
+        ("equator-corner", 2), ("pole-large", 2), ("straddle-long-edge", 2)]
 
 
 def gen_face(rng, big_only=False):
@@ -388,6 +388,8 @@ def gen_face(rng, big_only=False):
             f, sub = gen_pole_corner(rng, size)
         elif kind == "pole-large":
             f, sub = gen_pole_large(rng)
+        elif kind == "straddle-long-edge":
+            f, sub = gen_straddle_long_edge(rng)
         else:
             f, sub = gen_pole_enclosed(rng, size)
         f = [(float(lo), float(la)) for lo, la in f]
@@ -405,6 +407,40 @@ def gen_face(rng, big_only=False):
 
 from collections import Counter as _Counter
 GEN_REJECTS = _Counter()
+
+
+def gen_straddle_long_edge(rng):
+    """LARGE non-polar faces with a long edge (90-175 degrees) whose end points straddle the equator
+    (small |lat| on one side, mid latitude on the other, 100-170 degrees apart in longitude) and whose
+    great circle's apex lies INSIDE the edge: the arc is not monotone in latitude although it crosses
+    the equator.  Triangles and quads, the rest of the face on either side of the long edge, and the
+    mirrored southern version."""
+    for _ in range(400):
+        lon0 = rng.uniform(-180, 180)
+        dlon = rng.uniform(100, 170)
+        A = (lon0, -rng.uniform(0.5, 12))
+        B = (lon0 + dlon, rng.uniform(20, 60))
+        a, b = xyz_of(*A), xyz_of(*B)
+        d = float(np.dot(a, b))
+        if not (b[2] - d * a[2] > 1e-3 and a[2] - d * b[2] > 1e-3):     # apex strictly inside the arc
+            continue
+        north_side = rng.random() < 0.5
+        m = rng.choice([1, 2])
+        ts = sorted(rng.uniform(0.2, 0.8) for _ in range(m))
+        if north_side:      # A -> B eastwards, the other corners north of the long edge
+            others = [(lon0 + dlon * (1 - t), rng.uniform(62, 86)) for t in ts]
+            f = [A, B] + others
+        else:               # the other corners south of it: B -> A is the long edge
+            others = [(lon0 + dlon * t, -rng.uniform(15, 70)) for t in ts]
+            f = [A] + others + [B]
+        sub = "north-side" if north_side else "south-side"
+        if rng.random() < 0.5:      # mirrored: the long edge bulges towards the south pole
+            f = [(lo, -la) for lo, la in f][::-1]
+            sub += "/mirrored"
+        f = [(round(((lo + 180) % 360) - 180, 9), round(la, 9)) for lo, la in f]
+        if admissible(f) and not any(x > pole_margin_of(f) for x in pole_dets(f)):
+            return f, sub
+    raise RuntimeError("no straddling face")
 
 
 def gen_pole_opposite_meanz(rng, count):
@@ -875,6 +911,8 @@ def run(ctx):
                 "LARGE pole-enclosing faces (circumradius 40-85 deg, convex, inside a hemisphere) with the pole near a corner / near an "
                 "edge / centred / anywhere, corners on both sides of the equator, either pole, listed counter-clockwise or clockwise, "
                 "plus a stream of such faces whose corner mean lies in the other hemisphere; "
+                "LARGE non-polar triangles/quads with an edge of 90-175 deg whose end points straddle the equator and whose apex lies "
+                "inside the edge (the rest of the face north or south of it; mirrored southern version); "
                 "the FORM of the coordinate input is drawn per batch: dtype float64/float32/int64/int32/Python ints (integer forms on "
                 "whole-degree lattice faces), construction by from_topology / open_grid(latlon=True) / open_grid(xyz, radius 1, 6371, 0.25) / "
                 "from_dataset, longitudes in [-180,180) or [0,360), with or without normalize_cartesian_coordinates(); the oracle judges against "
@@ -906,6 +944,8 @@ def run(ctx):
     # pole-enclosing faces whose corners lie mostly in the other hemisphere (always run, plain + drawn forms)
     run_faces(ctx, gen_pole_opposite_meanz(rng, ctx.n(24, 240)))
     run_faces(ctx, gen_pole_opposite_meanz(rng, ctx.n(24, 240)), rng=rng)
+    # long edges across the equator with the apex inside the edge (always run)
+    run_faces(ctx, [(rotate(rng, f), "straddle-long-edge/" + sub) for f, sub in (gen_straddle_long_edge(rng) for _ in range(ctx.n(36, 360)))])
     B = 24
     for _ in range(ctx.n(1500, 60000) // B):
         fm = pick_form(rng)
